@@ -4,10 +4,10 @@ META = dict(
     technique='bounded symbolic execution of clang IR of the real sources (ir2c -> CBMC, SAT); real net/http/body.cpp, common/estring.cpp, '
               'common/iovector.cpp included textually over a harness-defined ISocketStream',
     bounds='chunk reader: chunked coding of a symbolic payload (quick: <= 2 bytes in 1 chunk for the fully symbolic jobs, <= 2 bytes in 2 chunks for the '
-           'byte-at-a-time and all-in-partial-body jobs; thorough: up to 4 bytes / 3 chunks, optional leading zero / upper-case hex size), symbolic split '
+           'byte-at-a-time and all-in-partial-body jobs; thorough: up to 4 bytes in 1 chunk with fragments 1..4, 3 bytes in 3 chunks, 2 bytes in 2 chunks fully symbolic, optional leading zero; either hex case), symbolic split '
            'between the partial body handed over by the header parser and the stream, every recv() returning a symbolic 1..3 (thorough 1..4) bytes, caller reads of '
            'symbolic size followed by one read of everything; truncation at every byte position; arbitrary byte strings of length <= 5 (safety) / <= 4 (two '
-           'deliveries compared) in quick, <= 6 / <= 5 in thorough.  Content-Length / close-delimited reader: any stream of <= 8 (12) bytes, declared length 0..10 (14), '
+           'deliveries compared) in quick, <= 7 / <= 6 in thorough.  Content-Length / close-delimited reader: any stream of <= 8 (12) bytes, declared length 0..10 (14), '
            '4 (6) reads of 1..3 bytes then one of everything; close() after 2 partial reads.  Writers: payload <= 4 bytes in <= 2 (<= 6 in <= 3) write()/writev() calls, '
            'declared length 0..5; round trips through the matching reader.',
     outside='Message header parsing (append_bytes, HeadersBase::parse, parse_start_line) and the body_size() framing decision: not encoded (second-priority scope, not reached); '
@@ -64,7 +64,7 @@ def jobs(tier):
     T = 400 if q else 1750      # nominal quick wall times are 5..180 s on an idle core; the margin is for a loaded machine
     J = []
     # ---- chunk reader, well-formed messages (oracle B: exactly the payload, then end of body)
-    d, us, wm = valid(2, 1) if q else valid(3, 1)
+    d, us, wm = valid(2, 1) if q else valid(4, 1, kf=4)
     J.append(J_('chunked_exact_frag', 'harness_chunked_exact', D(NCALL=0, **d), wm + 2, us, T,
                 'ChunkedBodyReadStream: one read of everything; symbolic partial-body split and recv fragmentation',
                 'payload <= %d bytes in 1 chunk, recv fragments 1..%d bytes' % (d['PMAX'], d['KFRAG'])))
@@ -108,14 +108,15 @@ def jobs(tier):
     J.append(J_('chunked_after_end', 'harness_chunked_after_end', D(WMAX=4, PMAX=2), 8, US(2, 2, 2, 2, 2, 2, 2, 2), 300,
                 'finished chunk reader: every read returns 0 and touches nothing', 'arbitrary cursor / line size / remaining count'))
     # ---- chunk reader, arbitrary bytes (oracles A and D)
-    wa = 5 if q else 6
+    wa = 5 if q else 7
+    TA = T if q else 3000       # thorough: about 19 and 21 minutes on an idle core
     J.append(J_('chunked_any_safe', 'harness_chunked_any', D(WMAX=wa, PMAX=wa, GMAX=wa + 1, KFRAG=3, NCALL=0, SRVMAX=wa, ANY_TERMINAL=True), wa + 2,
-                US(R=wa // 2 + 2, I=wa // 2 + 2, G=wa + 1, F=wa, H=wa, M=wa + 1, MM=wa + 1, S=wa + 1), T,
+                US(R=wa // 2 + 2, I=wa // 2 + 2, G=wa + 1, F=wa, H=wa, M=wa + 1, MM=wa + 1, S=wa + 1), TA,
                 'ChunkedBodyReadStream on arbitrary bytes: no out-of-bounds access, no endless loop, only bytes of the message delivered',
                 'any byte string of length <= %d, symbolic split and fragmentation, one read of everything and the read after it' % wa))
-    wa = 4 if q else 5
+    wa = 4 if q else 6
     J.append(J_('chunked_any_fragindep', 'harness_chunked_any', D(WMAX=wa, PMAX=wa, GMAX=wa + 1, KFRAG=3, NCALL=0, SRVMAX=wa, TWO_RUNS=True), wa + 2,
-                US(R=wa // 2 + 2, I=wa // 2 + 2, G=wa + 1, F=wa, H=wa, M=wa + 1, MM=wa + 1, S=wa + 1), T,
+                US(R=wa // 2 + 2, I=wa // 2 + 2, G=wa + 1, F=wa, H=wa, M=wa + 1, MM=wa + 1, S=wa + 1), TA,
                 'ChunkedBodyReadStream on arbitrary bytes: canonical delivery and a symbolic split/fragmentation give the same bytes and result',
                 'any byte string of length <= %d' % wa))
     # ---- writers and round trips (oracle C)
